@@ -277,6 +277,17 @@ def history_task(task):
                             edit_in_place(probe, rng)
                             if dict_fingerprint(d3) != fp3:
                                 raise Broken("the dictionary form changed after a copy of its tree was edited")
+                            # and the tree the dictionary was taken from (the run loop records the current tree, the
+                            # next subtree update then edits that very tree in place)
+                            probe = new.copy()
+                            d4 = probe.to_dict()
+                            fp4 = dict_fingerprint(d4)
+                            if edit_in_place(probe, rng):
+                                part.count("serial_dict_source_edit_evaluations")
+                                if dict_fingerprint(d4) != fp4:
+                                    raise Broken("the dictionary form changed when the tree it was taken from was edited "
+                                                 "afterwards (recorded entries share containers with the live tree)")
+                                trees_equivalent(new, Tree.from_dict(d4), tds)
                     part.see("%s|%s" % (d["op"], gen.key_str(gen.tree_key(new))))
                 if len(part.samples) < 2:
                     part.sample({"case": case, "first_ops": hist.log[:6], "final": gen.key_str(gen.tree_key(hist.tree))})
